@@ -16,6 +16,7 @@ func init() {
 			parserHelperRules(c, "C10")
 			configReadOnlyRules(c, "C10")
 			nonceRules(c, "C10")
+			headerWriterRules(c, "C10")
 		},
 	})
 }
